@@ -1,7 +1,5 @@
 package patch
 
-import "unsafe"
-
 // nopOpcode 空指令插入到原函数开头第一个字节, 用于判断原函数是否已经被 Patch 过
 const nopOpcode byte = 0x90
 
@@ -56,20 +54,11 @@ func jmpToOriginFunctionValue(from, to uintptr) (value []byte) {
 }
 
 // relative 判断两个指针间隔是否可以用相对地址表示
+// rel32 is relative to the end of the 5-byte jmp instruction, so the decision
+// is made on the displacement that is actually encoded.
 func relative(from uintptr, to uintptr) bool {
-	delta := int64(from - to)
-	if unsafe.Sizeof(uintptr(0)) == unsafe.Sizeof(int32(0)) {
-		delta = int64(int32(from - to))
-	}
-
-	// 跨度大于2G 时
-	relative := delta <= 0x7fffffff
-
-	if delta < 0 {
-		delta = -delta
-		relative = delta <= 0x80000000
-	}
-	return relative
+	delta := int64(to - from - 5)
+	return delta == int64(int32(delta))
 }
 
 // checkAlreadyPatch 检测是否已经 patch
